@@ -316,14 +316,12 @@ func (i *IGMP) DecodeFromBytes(data []byte, df gopacket.DecodeFeedback) error {
 
 	switch i.Type {
 	case IGMPMembershipQuery:
-		i.decodeIGMPv3MembershipQuery(data)
+		return i.decodeIGMPv3MembershipQuery(data)
 	case IGMPMembershipReportV3:
-		i.decodeIGMPv3MembershipReport(data)
+		return i.decodeIGMPv3MembershipReport(data)
 	default:
 		return errors.New("unsupported IGMP type")
 	}
-
-	return nil
 }
 
 // CanDecode returns the set of layer types that this DecodingLayer can decode.
